@@ -68,9 +68,49 @@ def with_two_cycle(n: int, f0: int, f1: int, f2: int, twice: bool) -> bool:
     return _run(fs[:nn], twice)
 
 
+def _alt_concrete(forms, pos, alt, passes):
+    """single-micro-op kernel; the instruction at pos has a second alternative port assignment"""
+    from harness._ports import build_kernel, uop
+    from osaca.semantics import ArchSemantics
+    fl = [FORMS14[f] for f in forms]
+    sem, model, kernel = build_kernel(PORTS3, [[f] for f in fl])
+    a0, a1 = uop(PORTS3, *fl[pos]), uop(PORTS3, *FORMS14[alt])
+    kernel[pos].port_uops = {0: [a0], 1: [a1]}
+    kernel[pos].port_pressure = model.average_port_pressure({0: [a0], 1: [a1]})
+    uniform = max(ArchSemantics.get_throughput_sum(kernel))
+    for _ in range(passes):
+        sem.assign_optimal_throughput(kernel)
+    mo = max(ArchSemantics.get_throughput_sum(kernel))
+    # exact optimum when the better alternative may be chosen
+    e0 = exact_optimum(3, fl)
+    e1 = exact_optimum(3, fl[:pos] + [FORMS14[alt]] + fl[pos + 1:])
+    ok = mo <= uniform + 1e-9 and mo >= min(e0, e1) - 0.011
+    return ok, e1 < e0 - 1e-9 or e0 < e1 - 1e-9, {"kernel": forms, "alt_pos": pos, "alt": alt, "passes": passes, "uniform_default": uniform, "optimised": mo, "exact": [e0, e1]}
+
+
+def alternatives(f0: int, f1: int, f2: int, alt: int, pos: int, twice: bool) -> bool:
+    """
+    pre: 0 <= f0 < 7 and 0 <= f1 < 7 and 0 <= f2 < 7 and 0 <= alt < 7 and 0 <= pos < 3
+    post: _
+    """
+    if skip(locals()):
+        return True
+    lo, hi = shard(49)
+    if not (lo <= f0 * 7 + f1 < hi):
+        return True
+    fs = [pick(f0, 7), pick(f1, 7), pick(f2, 7)]
+    p, a = pick(pos, 3), pick(alt, 7)
+    if a == fs[p]:
+        return True
+    ok, nt, sample = native(_alt_concrete, fs, p, a, 2 if twice else 1)
+    return verdict(ok, nontrivial=nt, sample=sample)
+
+
 CELLS = {
     "one_cycle": {"fn": one_cycle, "bound": "all 2800 ordered kernels of length 1..4 over the 7 one-cycle forms x {1,2} passes",
                   "budget": {"quick": 170, "thorough": 600}, "shards": 16},
+    "alternatives": {"fn": alternatives, "bound": "3 one-cycle single-micro-op instructions, the one at each position with a second alternative port assignment x {1,2} passes: never worse than the default assignment's uniform bottleneck, never below the best alternative's optimum",
+                     "budget": {"quick": 170, "thorough": 600}, "shards": 16},
     "with_two_cycle": {"fn": with_two_cycle, "bound": "all 2555 ordered kernels of length 1..3 over 14 forms containing a two-cycle form x {1,2} passes",
                        "budget": {"quick": 170, "thorough": 600}, "shards": 14},
 }
